@@ -13,7 +13,7 @@ CONSTANTS
   MaxProgress = FALSE
   FixDrain = TRUE
   FixDrop = TRUE
-  MaxNextId = 0
+  MaxNextId = 1
 INVARIANTS TypeOK Routing AckMatches NoBadAck NoPanic NoWedge LockFree
 
 CHECK_DEADLOCK FALSE
